@@ -18,9 +18,22 @@ using namespace rp;
 using cocls_verif::vsched;
 using cocls_verif::op_t;
 
+// Build levels (a representation change of the mutex must degrade the projection, not break the check; the driver compares
+// only the part of the expected projection that the build can observe - tools/checks/mutexlib.py OBS_LEVEL):
+//   default            everything
+//   -DMUTEX_NO_QUEUE   without the owner-private FIFO member (mutex::_queue): no "queue"
+//   -DMUTEX_NO_PRIVATE without any private data member: no "req" / "chain" / "queue"; an atomic operation is attributed to the
+//                      request stack when the object it touches lies inside the mutex object
+#if defined(MUTEX_NO_PRIVATE) && !defined(MUTEX_NO_QUEUE)
+#define MUTEX_NO_QUEUE
+#endif
 struct MProbe : cocls::mutex {
+#ifndef MUTEX_NO_PRIVATE
     static auto req_mp() { return &MProbe::_requests; }
+#endif
+#ifndef MUTEX_NO_QUEUE
     static auto queue_mp() { return &MProbe::_queue; }
+#endif
     static cocls::awaiter *door() { return doorman(); }
 };
 
@@ -44,6 +57,16 @@ struct World {
     std::atomic<long> allocs{0};   // every other operator new call made by party threads (library's own)
     vsched sched;
 };
+
+// is `obj` the mutex's request stack?
+static bool is_req_obj(World &w, const void *obj) {
+#ifndef MUTEX_NO_PRIVATE
+    return obj == &(w.mx.*MProbe::req_mp());
+#else
+    const char *b = reinterpret_cast<const char *>(&w.mx), *o = reinterpret_cast<const char *>(obj);
+    return o >= b && o < b + sizeof(w.mx);
+#endif
+}
 
 static void body(World &w, const std::string &p) {
     alloc_pause np;   // harness bookkeeping below
@@ -103,23 +126,22 @@ static std::string pend_of(World &w, const std::string &name) {
     const auto &e = w.sched.pending(t);
     // classification by operation kind, operands and by WHICH atomic object is touched (robust against
     // renamed or restructured functions): the mutex's request stack vs. a sync_awaiter flag
-    const void *req = &(w.mx.*MProbe::req_mp());
     const std::uint64_t door = (std::uint64_t) reinterpret_cast<std::uintptr_t>(MProbe::door());
     std::string site = std::string("?") + cocls_verif::op_name(e.op) + "@" + e.func;
     switch (e.op) {
         case op_t::mark: site = e.tag; break;
         case op_t::cas:
-            if (e.obj == req) {
+            if (is_req_obj(w, e.obj)) {
                 if (e.arg == door) site = "try";            // null -> doorman
                 else if (e.arg == 0) site = "ucas";         // doorman -> null
                 else site = "sub";                          // prev -> awaiter node
             }
             break;
         case op_t::xchg:
-            if (e.obj == req && e.arg == door) site = "bq";
+            if (is_req_obj(w, e.obj) && e.arg == door) site = "bq";
             break;
         case op_t::store: case op_t::assign:
-            if (e.obj != req) site = "fstore";
+            if (!is_req_obj(w, e.obj)) site = "fstore";
             break;
         case op_t::notify: site = "notify"; break;
         case op_t::wait: site = "wait"; break;
@@ -142,7 +164,7 @@ static void learn_nodes(World &w) {
         if (w.sched.parked(t) && !w.sched.pending_after(t) && w.sched.pending(t).op == op_t::cas) {
             const auto &e = w.sched.pending(t);
             const std::uint64_t door = (std::uint64_t) reinterpret_cast<std::uintptr_t>(MProbe::door());
-            if (e.obj == &(w.mx.*MProbe::req_mp()) && e.arg != door && e.arg != 0) {
+            if (is_req_obj(w, e.obj) && e.arg != door && e.arg != 0) {
                 // one-round mode: the thread only ever publishes its own party's node; multi-round mode: the party is
                 // announced by the party code itself right before it calls lock() (w.publishing)
                 w.node_of[e.arg] = w.multi ? w.publishing[kv.first] : kv.first;
@@ -154,6 +176,7 @@ static void learn_nodes(World &w) {
 static J project(World &w) {
     learn_nodes(w);
     J m = J::map();
+#ifndef MUTEX_NO_PRIVATE
     cocls::awaiter *top = (w.mx.*MProbe::req_mp()).verif_peek();
     m.set("req", name_of(w, top));
     J chain = J::list();
@@ -166,6 +189,8 @@ static J project(World &w) {
         }
     }
     m.set("chain", chain);
+#endif
+#ifndef MUTEX_NO_QUEUE
     J queue = J::list();
     {
         // the owner-private queue: an intrusive list through _next as the code keeps it today; a container of
@@ -186,6 +211,7 @@ static J project(World &w) {
         walk(w.mx.*MProbe::queue_mp());
     }
     m.set("queue", queue);
+#endif
     J acts = J::map(), done = J::map(), tryres = J::map(), pend = J::map();
     for (auto &kv : w.kind) {
         acts.set(kv.first, w.acts[kv.first]);
@@ -252,7 +278,9 @@ static void run_one(const Scenario &sc, Reporter &rep, Explore *ex) {
     // exploration: the specification has no pure loads, so loads are not scheduling points there (a behaviour-preserving
     // extra load must not change the recorded step structure)
     if (ex) w.sched.no_yield = [](const cocls_verif::event &e) { return e.op == op_t::load || e.op == op_t::conv; };
+#ifndef MUTEX_NO_PRIVATE
     if (w.sched.record_motable) cocls_verif::motable::get().label(&(w.mx.*MProbe::req_mp()), sizeof(void *), "mutex.requests");
+#endif
     w.multi = sc.hdr.has("rounds");
     w.nowarm = sc.hdr.at("nowarm").as_bool(false);
     if (w.multi) {
